@@ -69,7 +69,9 @@ def pos_preds(draw, ndim, levelmax, around_leaf=None):
     return {"form": "leaf", "leaf": draw(st.floats(0, 0.999)), "axes": "".join(sorted(axes)),
             "rel": draw(st.sampled_from([0.02, 0.1, 0.3, 0.6, 0.9, 1.5, 3.0, 8.0])),
             "shift": [draw(st.floats(-0.4, 0.4)) for _ in axes],
-            "by_size": draw(st.booleans()), "edge": draw(st.integers(0, 6)) == 0}
+            "by_size": draw(st.booleans()), "edge": draw(st.integers(0, 6)) == 0,
+            # at 20%: the leaf nearest to one of the 2^ndim domain corners (first / last cubes of the curve)
+            "corner": draw(st.sampled_from([None, None, None, None, 1, 1, 0, 2, 3, 4, 5, 6, 7]))}
 
 
 @st.composite
@@ -101,6 +103,9 @@ def resolve(spec, m, exp):
                 else:
                     i = int(p["leaf"] * n)
                 i = min(i, n - 1)
+                if p.get("corner") is not None:
+                    corner = np.array([(p["corner"] >> k) & 1 for k in range(m.ndim)], dtype=float)
+                    i = int(np.argmin(np.sum((exp["box"] - corner[None, :]) ** 2, axis=1)))
                 cen = exp["box"][i]
                 size = 0.5 ** exp["level"][i]
                 out["leaf"] = {"index": i, "level": int(exp["level"][i]), "centre": cen.tolist()}
